@@ -2924,6 +2924,7 @@ func (r *Resolver) lookupNSAddrV6(ctx context.Context, qname string, cd bool) (a
 func (r *Resolver) lookupV4Nss(ctx context.Context, q dns.Question, authservers *authority.Servers, key uint64, parentDS []dns.RR, foundv4, hosts hostSet, cd bool, cutDeadline time.Time) error {
 	list := sortHosts(hosts, q.Name)
 	var lastAttemptLimit error
+	loopSkipped := false
 
 	for _, name := range list {
 		// Hosts is copied by readers (checkHosts) under RLock once
@@ -2943,6 +2944,7 @@ func (r *Resolver) lookupV4Nss(ctx context.Context, q dns.Question, authservers 
 		if loop {
 			if _, ok := r.getIPv4Cache(name); !ok {
 				zlog.Debug("Looping during ns ipv4 lookup", "query", dnsutil.FormatQuestion(q), "ns", name)
+				loopSkipped = true
 				continue
 			}
 		}
@@ -2984,6 +2986,11 @@ func (r *Resolver) lookupV4Nss(ctx context.Context, q dns.Question, authservers 
 				zlog.Debug("Lookup NS ipv4 address reached attempt limit", "query", dnsutil.FormatQuestion(q), "ns", name)
 				continue
 			}
+			if errors.Is(err, middleware.ErrNameserverLookupLoop) {
+				// The nested look-up ended in a loop cut further down:
+				// as path-dependent as a host skipped right here.
+				loopSkipped = true
+			}
 			zlog.Debug("Lookup NS ipv4 address failed", "query", dnsutil.FormatQuestion(q), "ns", name, "error", err.Error())
 			continue
 		}
@@ -3022,6 +3029,18 @@ func (r *Resolver) lookupV4Nss(ctx context.Context, q dns.Question, authservers 
 		authservers.RUnlock()
 		if !hasServer {
 			return lastAttemptLimit
+		}
+	}
+	if loopSkipped {
+		// A host skipped by the loop guard (here or in a nested look-up)
+		// was never looked up, let alone asked. If that leaves the
+		// delegation without a server, the cause may be this tree's path
+		// rather than the zone; the caller decides what that publishes.
+		authservers.RLock()
+		hasServer := len(authservers.List) > 0
+		authservers.RUnlock()
+		if !hasServer {
+			return errNameserverLoop
 		}
 	}
 	return nil
@@ -3863,7 +3882,11 @@ func (r *Resolver) processDelegation(ctx context.Context, rs *resolveState, resp
 	authservers.CheckingDisable = cd
 	authservers.Zone = q.Name
 
-	if err := r.lookupV4Nss(ctx, q, authservers, key, rs.parentDS, foundv4, nsInfo.hosts, cd, childDeadline); err != nil {
+	err = r.lookupV4Nss(ctx, q, authservers, key, rs.parentDS, foundv4, nsInfo.hosts, cd, childDeadline)
+	// The loop guard leaving the delegation empty takes the same minimized
+	// retry as any other empty delegation; only its publication differs.
+	loopCut := errors.Is(err, middleware.ErrNameserverLookupLoop)
+	if err != nil && !loopCut {
 		return nil, err
 	}
 
@@ -3872,6 +3895,16 @@ func (r *Resolver) processDelegation(ctx context.Context, rs *resolveState, resp
 			rs.level++
 			rs.isRoot = false
 			return r.resolve(ctx, rs)
+		}
+		if loopCut && ctx.Value(contextKeyNSL) != nil {
+			// No server of q.Name was asked, and this is a nested
+			// nameserver-address walk: the tree is already looking up the
+			// zone's NS hosts further up and may yet reach them another way.
+			// Request-local - neither a zone failure nor a question failure
+			// may be published. At the root of a tree nothing is in flight,
+			// the walk is deterministic and a fresh request would repeat it,
+			// so there the empty delegation is published as before.
+			return nil, errNameserverLoop
 		}
 		r.recordResolutionZoneFailure(ctx, rs.req.Question[0], q.Name, errNoReachableAuth)
 		return nil, errNoReachableAuth
